@@ -1717,7 +1717,10 @@ fn loop_over_paint_servers(parent: &Group, f: &mut dyn FnMut(&Paint)) {
             Node::Text(_) => {}
         }
 
-        node.subroots(|subroot| loop_over_paint_servers(subroot, f));
+        // A nested SVG image is a tree of its own, with its own definitions.
+        if !matches!(node, Node::Image(_)) {
+            node.subroots(|subroot| loop_over_paint_servers(subroot, f));
+        }
     }
 }
 
@@ -1740,7 +1743,9 @@ impl Group {
                 }
             }
 
-            node.subroots(|subroot| subroot.collect_clip_paths(clip_paths));
+            if !matches!(node, Node::Image(_)) {
+                node.subroots(|subroot| subroot.collect_clip_paths(clip_paths));
+            }
 
             if let Node::Group(ref g) = node {
                 g.collect_clip_paths(clip_paths);
@@ -1766,7 +1771,9 @@ impl Group {
                 }
             }
 
-            node.subroots(|subroot| subroot.collect_masks(masks));
+            if !matches!(node, Node::Image(_)) {
+                node.subroots(|subroot| subroot.collect_masks(masks));
+            }
 
             if let Node::Group(ref g) = node {
                 g.collect_masks(masks);
@@ -1784,7 +1791,9 @@ impl Group {
                 }
             }
 
-            node.subroots(|subroot| subroot.collect_filters(filters));
+            if !matches!(node, Node::Image(_)) {
+                node.subroots(|subroot| subroot.collect_filters(filters));
+            }
 
             if let Node::Group(ref g) = node {
                 g.collect_filters(filters);
